@@ -609,8 +609,8 @@ def tie_params(c):
     d2 = np.flip(np.flip(p * np.exp(-t)).cumsum())
     nd = np.exp(t) * d2 - d1
     st, N = c["style"], len(p)
-    if st == "last":       # target 0 (delta_error == delta) ties with ndelta[N-1] == 0 when t_max == 0
-        delta, de = 0.015625, 0.015625
+    if st == "last":       # tiny positive target just above the floating-point guard: lands in the last cell (ndelta[N-1] == 0 when t_max == 0)
+        delta, de = 0.015625, 0.015625 - 2.0**-55
     elif st == "first":    # estimate target ties with ndelta[0] → side='left' gives i = 0 → RuntimeError
         delta, de = float(-nd[0]), 0.0
     elif st == "interior":
